@@ -766,6 +766,7 @@ func crashWorker(name string, imagesOf func(cr *crashRun) []crashImage) scenario
 	return func(t *testing.T, j *vlib.Job, r *vlib.Result) {
 		oracle := j.Str("oracle", "c08")
 		c09MaxPerStep = j.Int("max_per_step", 0)
+		c09CutShort = j.Bool("cut_short", false)
 		e := newEnum(t, j, r, name)
 		e.journal = true
 		alphabet := strings.Fields(j.Str("alphabet", "T2 TV WB F C"))
